@@ -60,10 +60,11 @@ def token(lang, word):
     return Token(word=word, surf=word, base='bs', pos='名詞', pos1='一般', pos2='*', pos3='*', inflectionForm='*', inflectionType='*', reading='r')
 
 
-def h_derivation(d, lang, n, nlex, with_failed):
-    """a derivation licensed by the real grammar: leaves by forks over the lexicon, rule results and unary steps by forks"""
+def gen_derivation(d, lang, n, nlex, tokfn=None):
+    """a derivation licensed by the real grammar: leaves by forks over the lexicon, rule results and unary steps by forks.
+    Returns a Tree or None when the chosen categories do not combine."""
     from depccg.cat import Category
-    from depccg.tree import Tree, ScoredTree
+    from depccg.tree import Tree
     from depccg.grammar import en, ja
     g = en if lang == 'en' else ja
     ut = unary_table(lang)
@@ -71,8 +72,11 @@ def h_derivation(d, lang, n, nlex, with_failed):
     nodes = []
     for i in range(n):
         c = d.pick('lex%d' % i, lex)
-        w = d.string('word', 1, TOKEN) if i == 0 else 'w%d' % i
-        t = Tree.make_terminal(token(lang, w), c)
+        if tokfn is not None:
+            tk = tokfn(d, i)
+        else:
+            tk = token(lang, d.string('word', 1, TOKEN) if i == 0 else 'w%d' % i)
+        t = Tree.make_terminal(tk, c)
         us = g.apply_unary_rules(c, ut)
         if us:
             k = d.choice('un%d' % i, len(us) + 1)
@@ -86,7 +90,7 @@ def h_derivation(d, lang, n, nlex, with_failed):
         l, r = nodes[i], nodes[i + 1]
         rs = g.apply_binary_rules(l.cat, r.cat)
         if not rs:
-            return True      # not a derivation: nothing to render
+            return None      # not a derivation
         res = rs[d.choice('rule%d' % len(nodes), len(rs))]
         t = Tree.make_binary(res.cat, l, r, res.op_string, res.op_symbol, res.head_is_left)
         if len(nodes) > 2:
@@ -94,7 +98,15 @@ def h_derivation(d, lang, n, nlex, with_failed):
             if us and d.boolean('unode%d' % len(nodes)):
                 t = Tree.make_unary(us[0].cat, t, us[0].op_string, us[0].op_symbol)
         nodes[i:i + 2] = [t]
-    results = [[ScoredTree(nodes[0], -2.5)]]
+    return nodes[0]
+
+
+def h_derivation(d, lang, n, nlex, with_failed):
+    from depccg.tree import ScoredTree
+    t = gen_derivation(d, lang, n, nlex)
+    if t is None:
+        return True
+    results = [[ScoredTree(t, -2.5)]]
     if with_failed:
         results = [placeholder()] + results + [placeholder()]
     return render_all(lang, results)
